@@ -145,6 +145,11 @@ func methodsOf(r *idl.Resolver, svc *idl.Service, f *idl.File) []struct {
 	return out
 }
 
+// 100 (RESPONSE_TOO_LARGE) is left out: it is the code the protocol reserves for an oversize reply, and the
+// generated client reports it as the transport error of that name by design
+var appTypes = []int32{0, 10, 11, 42, 101, 102, 429, -1, 2147483647}
+var appRot int
+
 func runC03(res *result) {
 	thorough := *tier == "thorough"
 	var atoms []idl.Atom
@@ -216,6 +221,12 @@ func runC03(res *result) {
 						outcomes = append(outcomes, &outcomeSpec{Kind: "exception", ExcType: rt.Struct, ExcValue: r.StructValues(st, sf, 1)[0], ExcID: t.ID})
 					}
 					outcomes = append(outcomes, &outcomeSpec{Kind: "error"}, &outcomeSpec{Kind: "appexc", AppType: 4})
+					// application exception types beyond the ones Thrift and Frugal define (a service's own
+					// codes, newer Frugal codes, a negative one): two per method, rotating
+					for j := 0; j < 2; j++ {
+						outcomes = append(outcomes, &outcomeSpec{Kind: "appexc", AppType: appTypes[appRot%len(appTypes)]})
+						appRot++
+					}
 				}
 				for _, tr := range transports {
 					for _, pr := range protos {
